@@ -7,7 +7,7 @@
     nonce [n] and signed instant [t] (ns); a request Verify accepts is admitted
     ([C09_accepted_is_admitted]), so "never admitted twice" implies "never accepted twice". *)
 From Coq Require Import ZArith List Bool NArith.
-From HK Require Import Model.NonceCache Model.Hmac Model.Reload Model.HmacHistory
+From HK Require Import Model.NonceCache Model.Hmac Model.ReloadAuth Model.HmacHistory
   Proofs.HmacProofs Proofs.ReplayProofs.
 Import ListNotations.
 Open Scope Z_scope.
